@@ -45,18 +45,17 @@ Proof.
   assert (B : forall h v', bs' h v' = true -> f' v' < gn G /\ f (f' v') = v' /\ bs h (f' v') = true).
   { intros h v' Hv. unfold bs' in Hv. apply andb_prop in Hv. destruct Hv as [Hv H3].
     apply andb_prop in Hv. destruct Hv as [H1 H2]. apply Nat.ltb_lt in H1. apply Nat.eqb_eq in H2. auto. }
-  exists bs'. repeat split.
+  exists bs'. split; [|split; [|split; [|split]]].
   - intros h Hh. destruct (Hne h Hh) as [v Hv]. exists (f v). apply A; auto.
   - intros h v' Hh Hv. destruct (B h v' Hv) as (L & E & _). rewrite <- E. apply Hf. exact L.
   - intros h h' v' Hh Hh' Hv Hv'. destruct (B h v' Hv) as (_ & _ & X). destruct (B h' v' Hv') as (_ & _ & Y).
     eapply Hd; eauto.
   - intros h u' v' Hh Hu Hv. destruct (B h u' Hu) as (_ & Eu & Xu). destruct (B h v' Hv) as (_ & Ev & Xv).
     rewrite <- Eu, <- Ev. apply conn_map with (G := G) (S := bs h).
-    + intros x y (Sx & Sy & Axy). repeat split.
+    + intros x y (Sx & Sy & Axy). apply conn_step. repeat split.
       * apply A; auto.
       * apply A; auto.
       * apply Hadj. exact Axy.
-      * apply rt1n_refl.
     + apply Hc; auto.
   - intros h h' Ah. destruct (He h h' Ah) as (u & v & Hu & Hv & Auv).
     destruct (adj_lt _ _ _ Ah) as (Lh & Lh' & _).
@@ -96,11 +95,52 @@ Proof.
   intros G G' I. destruct (iso_embeds _ _ I) as [E1 E2]. split; apply planar_embeds; assumption.
 Qed.
 
+(* ---- restricting a model of H in G' (one more vertex, numbered n = gn G) to G *)
+Section Restrict.
+  Variables (H G G' : graph) (bs : nat -> nat -> bool).
+  Let n := gn G.
+  Let bs' := fun h v => (v <? n) && bs h v.
+
+  Lemma restr_in : forall h v, v < n -> bs h v = true -> bs' h v = true.
+  Proof. intros h v L Hv. unfold bs'. rewrite Hv. apply Nat.ltb_lt in L. rewrite L. reflexivity. Qed.
+
+  Lemma restr_out : forall h v, bs' h v = true -> v < n /\ bs h v = true.
+  Proof.
+    intros h v Hv. unfold bs' in Hv. apply andb_prop in Hv. destruct Hv as [H1 H2].
+    apply Nat.ltb_lt in H1. auto.
+  Qed.
+
+  (* enough to restrict a model: every branch set keeps a vertex, stays connected in G, and
+     every edge of H keeps a witness *)
+  Lemma restrict_model :
+    gn G' = S n ->
+    is_model H G' bs ->
+    (forall h, h < gn H -> exists v, v < n /\ bs h v = true) ->
+    (forall h u v, h < gn H -> u < n -> v < n -> bs h u = true -> bs h v = true ->
+       conn G (bs' h) u v) ->
+    (forall h h', adj H h h' = true ->
+       exists u v, u < n /\ v < n /\ bs h u = true /\ bs h' v = true /\ adj G u v = true) ->
+    is_model H G bs'.
+  Proof.
+    intros Hn (Hne & Hr & Hd & Hc & He) N C E.
+    split; [|split; [|split; [|split]]].
+    - intros h Hh. destruct (N h Hh) as (v & L & Hv). exists v. apply restr_in; auto.
+    - intros h v Hh Hv. apply restr_out in Hv. tauto.
+    - intros h h' v Hh Hh' Hv Hv'. apply restr_out in Hv. apply restr_out in Hv'.
+      apply (Hd h h' v); tauto.
+    - intros h u v Hh Hu Hv. apply restr_out in Hu. apply restr_out in Hv.
+      apply C; tauto.
+    - intros h h' A. destruct (E h h' A) as (u & v & Lu & Lv & Hu & Hv & Auv).
+      exists u, v. split; [apply restr_in; auto|]. split; [apply restr_in; auto|exact Auv].
+  Qed.
+End Restrict.
+
 (* ---- a new isolated vertex *)
 Theorem minor_isolated : forall H G G', min_deg1 H -> adds_isolated G G' ->
   has_minor H G' -> has_minor H G.
 Proof.
-  intros H G G' D1 [[Hn Hold] Hiso] (bs & Hne & Hr & Hd & Hc & He).
+  intros H G G' D1 [[Hn Hold] Hiso] (bs & M).
+  pose proof M as (Hne & Hr & Hd & Hc & He).
   set (n := gn G) in *.
   assert (NN : forall h, h < gn H -> bs h n = false).
   { intros h Hh. destruct (bs h n) eqn:E; [|reflexivity]. exfalso.
@@ -111,21 +151,284 @@ Proof.
   assert (LT : forall h v, h < gn H -> bs h v = true -> v < n).
   { intros h v Hh Hv. pose proof (Hr h v Hh Hv) as L. rewrite Hn in L.
     assert (v <> n) by (intros ->; rewrite NN in Hv; [discriminate|exact Hh]). lia. }
-  set (bs' := fun h v => (v <? n) && bs h v).
-  assert (A : forall h v, h < gn H -> bs h v = true -> bs' h v = true).
-  { intros h v Hh Hv. unfold bs'. rewrite Hv. pose proof (LT h v Hh Hv) as L. apply Nat.ltb_lt in L. rewrite L. reflexivity. }
-  assert (B : forall h v, bs' h v = true -> v < n /\ bs h v = true).
-  { intros h v Hv. unfold bs' in Hv. apply andb_prop in Hv. destruct Hv as [H1 H2]. apply Nat.ltb_lt in H1. auto. }
-  exists bs'. repeat split.
-  - intros h Hh. destruct (Hne h Hh) as [v Hv]. exists v. apply A; auto.
-  - intros h v Hh Hv. apply B in Hv. tauto.
-  - intros h h' v Hh Hh' Hv Hv'. apply B in Hv. apply B in Hv'. eapply Hd; [exact Hh|exact Hh'|tauto|tauto].
-  - intros h u v Hh Hu Hv. apply B in Hu. apply B in Hv.
-    apply conn_map with (G := G') (S := bs h) (f := fun x => x); [|apply Hc; tauto].
-    intros x y (Sx & Sy & Axy). apply conn_step. repeat split; [apply A; auto|apply A; auto|].
-    rewrite <- Hold; [exact Axy|eapply LT; eauto|eapply LT; eauto].
+  eexists. apply (restrict_model H G G' bs Hn M).
+  - intros h Hh. destruct (Hne h Hh) as [v Hv]. exists v. split; [eapply LT; eauto|exact Hv].
+  - intros h u v Hh Lu Lv Hu Hv.
+    apply conn_map with (G := G') (S := bs h) (f := fun x => x); [|apply Hc; auto].
+    intros x y (Sx & Sy & Axy). apply conn_step.
+    pose proof (LT h x Hh Sx) as Lx. pose proof (LT h y Hh Sy) as Ly.
+    split; [apply restr_in; auto|]. split; [apply restr_in; auto|].
+    rewrite <- Hold; auto.
   - intros h h' Ah. destruct (He h h' Ah) as (u & v & Hu & Hv & Auv).
     destruct (adj_lt _ _ _ Ah) as (Lh & Lh' & _).
-    exists u, v. repeat split; [apply A; auto|apply A; auto|].
-    rewrite <- Hold; [exact Auv|eapply LT; eauto|eapply LT; eauto].
+    pose proof (LT h u Lh Hu) as Lu. pose proof (LT h' v Lh' Hv) as Lv.
+    exists u, v. repeat (split; auto). rewrite <- Hold; auto.
+Qed.
+
+Theorem planar_isolated : forall G G', adds_isolated G G' -> (planar G <-> planar G').
+Proof.
+  intros G G' I. split.
+  - intros [P5 P33]. split; intros M; [apply P5|apply P33];
+      (eapply minor_isolated; [|exact I|exact M]); intros h Hh;
+      do 6 (try destruct h as [|h]); try (simpl in Hh; lia);
+      solve [exists 0; reflexivity | exists 1; reflexivity | exists 3; reflexivity].
+  - apply planar_embeds. apply extends_embeds. apply I.
+Qed.
+
+(* ---- a new pendant vertex *)
+Theorem minor_pendant : forall H G G' w, min_deg2 H -> adds_pendant G G' w ->
+  has_minor H G' -> has_minor H G.
+Proof.
+  intros H G G' w D2 ([Hn Hold] & Lw & Hp) (bs & M).
+  pose proof M as (Hne & Hr & Hd & Hc & He).
+  set (n := gn G) in *.
+  assert (Pn : forall x, adj G' x n = true -> x = w).
+  { intros x A. rewrite adj_sym, Hp in A. apply Nat.eqb_eq in A. exact A. }
+  assert (Pn' : forall x, adj G' n x = true -> x = w).
+  { intros x A. rewrite Hp in A. apply Nat.eqb_eq in A. exact A. }
+  (* a branch set that contains the new vertex contains w *)
+  assert (KEY : forall h, h < gn H -> bs h n = true -> bs h w = true).
+  { intros h Hh E.
+    assert (OTHER : exists u, bs h u = true /\ u <> n).
+    { destruct (D2 h Hh) as (h1 & h2 & Hne12 & A1 & A2).
+      destruct (He h h1 A1) as (u1 & v1 & Hu1 & Hv1 & Auv1).
+      destruct (He h h2 A2) as (u2 & v2 & Hu2 & Hv2 & Auv2).
+      destruct (Nat.eq_dec u1 n) as [E1|N1]; [|exists u1; auto].
+      destruct (Nat.eq_dec u2 n) as [E2|N2]; [|exists u2; auto].
+      exfalso. subst u1 u2. apply Pn' in Auv1. apply Pn' in Auv2. subst v1 v2.
+      destruct (adj_lt _ _ _ A1) as (_ & L1 & _). destruct (adj_lt _ _ _ A2) as (_ & L2 & _).
+      apply Hne12. apply (Hd h1 h2 w); auto. }
+    destruct OTHER as (u & Hu & Nu).
+    pose proof (Hc h n u Hh E Hu) as C. inversion C as [EQ|y z St C' EQ].
+    - subst u. congruence.
+    - destruct St as (_ & Sy & X). apply Pn' in X. subst y. exact Sy. }
+  (* paths avoiding the new vertex *)
+  assert (PATH : forall h, h < gn H -> forall u v, conn G' (bs h) u v -> v <> n ->
+            forall x, (if u =? n then x = w else x = u) ->
+            conn G (fun v => (v <? n) && bs h v) x v).
+  { intros h Hh u v C. induction C as [u|u y v St C IH]; intros Nv x Hx.
+    - destruct (u =? n) eqn:E; [apply Nat.eqb_eq in E; congruence|]. subst x. apply conn_refl.
+    - destruct St as (Su & Sy & A).
+      destruct (u =? n) eqn:E.
+      + apply Nat.eqb_eq in E. subst u x. apply Pn' in A. subst y.
+        apply IH; auto. assert (w <> n) by lia. apply Nat.eqb_neq in H0. rewrite H0. reflexivity.
+      + subst x. apply Nat.eqb_neq in E. destruct (y =? n) eqn:E2.
+        * apply IH; auto. apply Nat.eqb_eq in E2. subst y. apply Pn. exact A.
+        * apply Nat.eqb_neq in E2. specialize (IH Nv y eq_refl).
+          eapply conn_trans; [|exact IH]. apply conn_step.
+          destruct (adj_lt _ _ _ A) as (Lu & Ly & _). rewrite Hn in Lu, Ly.
+          assert (Lu' : u < n) by lia. assert (Ly' : y < n) by lia.
+          split; [apply restr_in; auto|]. split; [apply restr_in; auto|].
+          rewrite <- Hold; auto. }
+  eexists. apply (restrict_model H G G' bs Hn M).
+  - intros h Hh. destruct (Hne h Hh) as [v Hv].
+    destruct (Nat.eq_dec v n) as [->|Nv].
+    + exists w. split; [exact Lw|apply KEY; auto].
+    + exists v. split; [|exact Hv]. pose proof (Hr h v Hh Hv). lia.
+  - intros h u v Hh Lu Lv Hu Hv.
+    apply (PATH h Hh u v); [apply Hc; auto|lia|].
+    assert (u <> n) by lia. apply Nat.eqb_neq in H0. rewrite H0. reflexivity.
+  - intros h h' Ah. destruct (He h h' Ah) as (u & v & Hu & Hv & Auv).
+    destruct (adj_lt _ _ _ Ah) as (Lh & Lh' & Nh).
+    destruct (Nat.eq_dec u n) as [Eu|Nu].
+    { exfalso. subst u. apply Pn' in Auv. subst v. apply Nh. apply (Hd h h' w); auto. }
+    destruct (Nat.eq_dec v n) as [Ev|Nv].
+    { exfalso. subst v. apply Pn in Auv. subst u. apply Nh. apply (Hd h h' w); auto. }
+    pose proof (Hr h u Lh Hu). pose proof (Hr h' v Lh' Hv).
+    assert (Lu : u < n) by lia. assert (Lv : v < n) by lia.
+    exists u, v. repeat (split; auto). rewrite <- Hold; auto.
+Qed.
+
+Lemma K5_deg3 : min_deg3 K5.
+Proof.
+  intros h Hh. do 5 (try destruct h as [|h]); try (simpl in Hh; lia).
+  - exists 1, 2, 3. repeat split; try lia; reflexivity.
+  - exists 0, 2, 3. repeat split; try lia; reflexivity.
+  - exists 0, 1, 3. repeat split; try lia; reflexivity.
+  - exists 0, 1, 2. repeat split; try lia; reflexivity.
+  - exists 0, 1, 2. repeat split; try lia; reflexivity.
+Qed.
+
+Lemma K33_deg3 : min_deg3 K33.
+Proof.
+  intros h Hh. do 6 (try destruct h as [|h]); try (simpl in Hh; lia).
+  1-3: exists 3, 4, 5; repeat split; try lia; reflexivity.
+  1-3: exists 0, 1, 2; repeat split; try lia; reflexivity.
+Qed.
+
+Lemma deg3_deg2 : forall H, min_deg3 H -> min_deg2 H.
+Proof. intros H D h Hh. destruct (D h Hh) as (h1 & h2 & h3 & N12 & _ & _ & A1 & A2 & _). exists h1, h2. auto. Qed.
+
+Lemma deg2_deg1 : forall H, min_deg2 H -> min_deg1 H.
+Proof. intros H D h Hh. destruct (D h Hh) as (h1 & h2 & _ & A1 & _). exists h1. auto. Qed.
+
+Theorem planar_pendant : forall G G' w, adds_pendant G G' w -> (planar G <-> planar G').
+Proof.
+  intros G G' w I. split.
+  - intros [P5 P33]. split; intros M; [apply P5|apply P33];
+      (eapply minor_pendant; [|exact I|exact M]); apply deg3_deg2; [apply K5_deg3|apply K33_deg3].
+  - apply planar_embeds. apply extends_embeds. apply I.
+Qed.
+
+(* ---- subdividing an edge *)
+Theorem minor_subdivide_up : forall H G G' a b, subdivides G G' a b ->
+  has_minor H G -> has_minor H G'.
+Proof.
+  intros H G G' a b (Hn & Aab & Hold & Hnew) (bs & Hne & Hr & Hd & Hc & He).
+  set (n := gn G) in *.
+  destruct (adj_lt _ _ _ Aab) as (La & Lb & Nab). fold n in La, Lb.
+  set (bs' := fun h v => if v =? n then bs h a else bs h v).
+  assert (An : forall x, adj G' n x = (x =? a) || (x =? b)) by exact Hnew.
+  assert (Ana : adj G' n a = true) by (rewrite An, Nat.eqb_refl; reflexivity).
+  assert (Anb : adj G' n b = true) by (rewrite An, Nat.eqb_refl; apply orb_true_r).
+  assert (IN : forall h v, h < gn H -> bs h v = true -> bs' h v = true).
+  { intros h v Hh Hv. unfold bs'. pose proof (Hr h v Hh Hv) as L.
+    assert (E : v <> n) by (unfold n; lia). apply Nat.eqb_neq in E. rewrite E. exact Hv. }
+  assert (INn : forall h, bs h a = true -> bs' h n = true).
+  { intros h Hv. unfold bs'. rewrite Nat.eqb_refl. exact Hv. }
+  (* one step of G inside a branch set becomes a path of G' inside the new branch set *)
+  assert (STEP : forall h, h < gn H -> forall x y, step G (bs h) x y -> conn G' (bs' h) x y).
+  { intros h Hh x y (Sx & Sy & Axy).
+    destruct (adj_lt _ _ _ Axy) as (Lx & Ly & Nxy). fold n in Lx, Ly.
+    destruct (((x =? a) && (y =? b)) || ((x =? b) && (y =? a))) eqn:E.
+    - apply orb_prop in E. destruct E as [E|E]; apply andb_prop in E; destruct E as [E1 E2];
+        apply Nat.eqb_eq in E1; apply Nat.eqb_eq in E2; subst x y.
+      + eapply conn_trans; apply conn_step.
+        * split; [apply IN; auto|]. split; [apply INn; exact Sx|]. rewrite adj_sym. exact Ana.
+        * split; [apply INn; exact Sx|]. split; [apply IN; auto|]. exact Anb.
+      + eapply conn_trans; apply conn_step.
+        * split; [apply IN; auto|]. split; [apply INn; exact Sy|]. rewrite adj_sym. exact Anb.
+        * split; [apply INn; exact Sy|]. split; [apply IN; auto|]. exact Ana.
+    - apply conn_step. split; [apply IN; auto|]. split; [apply IN; auto|].
+      rewrite Hold by assumption. rewrite Axy, E. reflexivity. }
+  exists bs'. split; [|split; [|split; [|split]]].
+  - intros h Hh. destruct (Hne h Hh) as [v Hv]. exists v. apply IN; auto.
+  - intros h v Hh Hv. unfold bs' in Hv. destruct (v =? n) eqn:E.
+    + apply Nat.eqb_eq in E. lia.
+    + pose proof (Hr h v Hh Hv). unfold n in *. lia.
+  - intros h h' v Hh Hh' Hv Hv'. unfold bs' in Hv, Hv'. destruct (v =? n).
+    + apply (Hd h h' a); auto.
+    + apply (Hd h h' v); auto.
+  - assert (TOA : forall h v, h < gn H -> bs' h v = true ->
+              exists v0, bs h v0 = true /\ conn G' (bs' h) v v0).
+    { intros h v Hh Hv. pose proof Hv as Hv0. unfold bs' in Hv. destruct (v =? n) eqn:E.
+      - apply Nat.eqb_eq in E. subst v. exists a. split; [exact Hv|]. apply conn_step.
+        split; [exact Hv0|]. split; [apply IN; auto|exact Ana].
+      - exists v. split; [exact Hv|apply conn_refl]. }
+    intros h u v Hh Hu Hv.
+    destruct (TOA h u Hh Hu) as (u0 & Hu0 & Cu). destruct (TOA h v Hh Hv) as (v0 & Hv0 & Cv).
+    eapply conn_trans; [exact Cu|]. eapply conn_trans; [|apply conn_sym; exact Cv].
+    apply conn_map with (G := G) (S := bs h) (f := fun x => x); [apply STEP; exact Hh|].
+    apply Hc; auto.
+  - intros h h' Ah. destruct (He h h' Ah) as (u & v & Hu & Hv & Auv).
+    destruct (adj_lt _ _ _ Ah) as (Lh & Lh' & _).
+    destruct (adj_lt _ _ _ Auv) as (Lu & Lv & Nuv). fold n in Lu, Lv.
+    destruct (((u =? a) && (v =? b)) || ((u =? b) && (v =? a))) eqn:E.
+    + apply orb_prop in E. destruct E as [E|E]; apply andb_prop in E; destruct E as [E1 E2];
+        apply Nat.eqb_eq in E1; apply Nat.eqb_eq in E2; subst u v.
+      * exists n, b. split; [apply INn; exact Hu|]. split; [apply IN; auto|exact Anb].
+      * exists b, n. split; [apply IN; auto|]. split; [apply INn; exact Hv|]. rewrite adj_sym. exact Anb.
+    + exists u, v. split; [apply IN; auto|]. split; [apply IN; auto|].
+      rewrite Hold by assumption. rewrite Auv, E. reflexivity.
+Qed.
+
+Theorem minor_subdivide_down : forall H G G' a b, min_deg3 H -> subdivides G G' a b ->
+  has_minor H G' -> has_minor H G.
+Proof.
+  intros H G G' a b D3 (Hn & Aab & Hold & Hnew) (bs & M).
+  pose proof M as (Hne & Hr & Hd & Hc & He).
+  set (n := gn G) in *.
+  destruct (adj_lt _ _ _ Aab) as (La & Lb & Nab). fold n in La, Lb.
+  assert (Pn' : forall x, adj G' n x = true -> x = a \/ x = b).
+  { intros x A. rewrite Hnew in A. apply orb_prop in A. destruct A as [A|A]; apply Nat.eqb_eq in A; auto. }
+  assert (Pn : forall x, adj G' x n = true -> x = a \/ x = b).
+  { intros x A. rewrite adj_sym in A. auto. }
+  assert (OLD : forall u v, u < n -> v < n -> adj G' u v = true -> adj G u v = true).
+  { intros u v Lu Lv A. rewrite Hold in A by assumption. apply andb_prop in A. tauto. }
+  assert (Aba : adj G b a = true) by (rewrite adj_sym; exact Aab).
+  (* a branch set that contains the new vertex contains another vertex, hence a or b *)
+  assert (KEY : forall h, h < gn H -> bs h n = true -> bs h a = true \/ bs h b = true).
+  { intros h Hh E.
+    assert (OTHER : exists u, bs h u = true /\ u <> n).
+    { destruct (D3 h Hh) as (h1 & h2 & h3 & N12 & N13 & N23 & A1 & A2 & A3).
+      destruct (He h h1 A1) as (u1 & v1 & Hu1 & Hv1 & Auv1).
+      destruct (He h h2 A2) as (u2 & v2 & Hu2 & Hv2 & Auv2).
+      destruct (He h h3 A3) as (u3 & v3 & Hu3 & Hv3 & Auv3).
+      destruct (Nat.eq_dec u1 n) as [E1|N1]; [|exists u1; auto].
+      destruct (Nat.eq_dec u2 n) as [E2|N2]; [|exists u2; auto].
+      destruct (Nat.eq_dec u3 n) as [E3|N3]; [|exists u3; auto].
+      exfalso. subst u1 u2 u3. apply Pn' in Auv1. apply Pn' in Auv2. apply Pn' in Auv3.
+      destruct (adj_lt _ _ _ A1) as (_ & L1 & _). destruct (adj_lt _ _ _ A2) as (_ & L2 & _).
+      destruct (adj_lt _ _ _ A3) as (_ & L3 & _).
+      destruct Auv1 as [-> | ->], Auv2 as [-> | ->], Auv3 as [-> | ->];
+        first [ apply N12; eapply Hd; eassumption | apply N13; eapply Hd; eassumption
+              | apply N23; eapply Hd; eassumption ]. }
+    destruct OTHER as (u & Hu & Nu).
+    pose proof (Hc h n u Hh E Hu) as C. inversion C as [EQ|y z St C' EQ].
+    - subst u. congruence.
+    - destruct St as (_ & Sy & X). apply Pn' in X. destruct X; subst y; auto. }
+  (* paths avoiding the new vertex *)
+  assert (PATH : forall h, h < gn H -> forall u v, conn G' (bs h) u v -> v <> n ->
+            forall x, (if u =? n then (x = a \/ x = b) /\ bs h x = true else x = u) ->
+            conn G (fun v => (v <? n) && bs h v) x v).
+  { intros h Hh u v C. induction C as [u|u y v St C IH]; intros Nv x Hx.
+    - destruct (u =? n) eqn:E; [apply Nat.eqb_eq in E; congruence|]. subst x. apply conn_refl.
+    - destruct St as (Su & Sy & A).
+      destruct (u =? n) eqn:E.
+      + apply Nat.eqb_eq in E. subst u. destruct Hx as [Hx Sx]. apply Pn' in A.
+        assert (Ny : y <> n) by (destruct A; subst y; lia).
+        pose proof Ny as Ny'. apply Nat.eqb_neq in Ny'.
+        assert (IHy : conn G (fun v => (v <? n) && bs h v) y v) by (apply IH; [exact Nv|rewrite Ny'; reflexivity]).
+        destruct (Nat.eq_dec x y) as [->|Nxy]; [exact IHy|].
+        eapply conn_trans; [|exact IHy]. apply conn_step.
+        assert (Lx : x < n) by (destruct Hx; subst x; assumption).
+        assert (Ly : y < n) by (destruct A; subst y; assumption).
+        split; [apply restr_in; auto|]. split; [apply restr_in; auto|].
+        destruct Hx as [-> | ->], A as [-> | ->]; congruence.
+      + subst x. apply Nat.eqb_neq in E. destruct (y =? n) eqn:E2.
+        * apply Nat.eqb_eq in E2. subst y. apply IH; [exact Nv|].
+          split; [apply Pn; exact A|exact Su].
+        * pose proof E2 as E2'. apply Nat.eqb_neq in E2.
+          assert (IHy : conn G (fun v => (v <? n) && bs h v) y v) by (apply IH; [exact Nv|try rewrite E2'; reflexivity]).
+          eapply conn_trans; [|exact IHy]. apply conn_step.
+          destruct (adj_lt _ _ _ A) as (Lu & Ly & _). rewrite Hn in Lu, Ly.
+          assert (Lu' : u < n) by lia. assert (Ly' : y < n) by lia.
+          split; [apply restr_in; auto|]. split; [apply restr_in; auto|].
+          apply OLD; auto. }
+  eexists. apply (restrict_model H G G' bs Hn M).
+  - intros h Hh. destruct (Hne h Hh) as [v Hv].
+    destruct (Nat.eq_dec v n) as [->|Nv].
+    + destruct (KEY h Hh Hv) as [K|K]; [exists a|exists b]; auto.
+    + exists v. split; [|exact Hv]. pose proof (Hr h v Hh Hv). lia.
+  - intros h u v Hh Lu Lv Hu Hv.
+    apply (PATH h Hh u v); [apply Hc; auto|lia|].
+    assert (u <> n) by lia. apply Nat.eqb_neq in H0. rewrite H0. reflexivity.
+  - assert (ONE : forall h h' v, h < gn H -> h' < gn H -> h <> h' -> bs h n = true -> bs h' v = true ->
+                adj G' n v = true ->
+                exists u v, u < n /\ v < n /\ bs h u = true /\ bs h' v = true /\ adj G u v = true).
+    { intros h h' v Lh Lh' Nh Hu Hv Auv. apply Pn' in Auv.
+      destruct (KEY h Lh Hu) as [K|K], Auv as [-> | ->].
+      - exfalso. apply Nh. apply (Hd h h' a); auto.
+      - exists a, b. repeat (split; auto).
+      - exists b, a. repeat (split; auto).
+      - exfalso. apply Nh. apply (Hd h h' b); auto. }
+    intros h h' Ah. destruct (He h h' Ah) as (u & v & Hu & Hv & Auv).
+    destruct (adj_lt _ _ _ Ah) as (Lh & Lh' & Nh).
+    destruct (Nat.eq_dec u n) as [Eu|Nu].
+    { subst u. apply (ONE h h' v); auto. }
+    destruct (Nat.eq_dec v n) as [Ev|Nv].
+    { subst v. rewrite adj_sym in Auv. destruct (ONE h' h u) as (x & y & Lx & Ly & Sx & Sy & Axy); auto.
+      exists y, x. repeat (split; auto). rewrite adj_sym. exact Axy. }
+    pose proof (Hr h u Lh Hu). pose proof (Hr h' v Lh' Hv).
+    assert (Lu : u < n) by lia. assert (Lv : v < n) by lia.
+    exists u, v. repeat (split; auto).
+Qed.
+
+Theorem planar_subdivide : forall G G' a b, subdivides G G' a b -> (planar G <-> planar G').
+Proof.
+  intros G G' a b S. split.
+  - intros [P5 P33]. split; intros M; [apply P5|apply P33];
+      (eapply minor_subdivide_down; [|exact S|exact M]); [apply K5_deg3|apply K33_deg3].
+  - intros [P5 P33]. split; intros M; [apply P5|apply P33];
+      (eapply minor_subdivide_up; [exact S|exact M]).
 Qed.
